@@ -181,8 +181,9 @@ type collector struct {
 	hashes   map[uint64]struct{}
 	failed   bool
 	known    map[string]finding
-	inEnum   bool
-	nSamples int
+	inEnum     bool
+	srcCount   map[string]int
+	srcSamples map[string]int
 }
 
 // Extra lets a property attach additional measured facts to its evidence.
@@ -305,13 +306,18 @@ func (r *defRunner[C]) record(col *collector, c C, st Stats, err error) (fatal s
 			col.hashes[h] = struct{}{}
 			// keep a few samples: the first three distinct non-trivial cases,
 			// then one at every power of four
-			n := len(col.hashes)
-			if n <= 3 || (n&(n-1) == 0 && bitsEven(n) && col.nSamples < 10) {
+			src, n := "rapid", col.p.RapidEvals
+			if col.inEnum {
+				src, n = "enumeration", col.p.EnumEvals
+			}
+			col.srcCount[src]++
+			k := col.srcCount[src]
+			if (k <= 2 || (k&(k-1) == 0 && bitsEven(k))) && col.srcSamples[src] < 5 {
 				raw, _ := json.Marshal(c)
 				var anyc any
 				json.Unmarshal(raw, &anyc)
-				col.p.Samples = append(col.p.Samples, map[string]any{"n": col.p.Evaluations, "classes": st.Classes, "case": anyc})
-				col.nSamples++
+				col.p.Samples = append(col.p.Samples, map[string]any{"source": src, "n": n, "classes": st.Classes, "case": anyc})
+				col.srcSamples[src]++
 			}
 		}
 	}
@@ -332,7 +338,7 @@ func (r *defRunner[C]) runAll(t *testing.T) {
 	shard := envInt("VERIF_SHARD", 0)
 	nshards := envInt("VERIF_NSHARDS", 1)
 	start := time.Now()
-	col := &collector{hashes: map[uint64]struct{}{}, known: loadKnown(r.d.ID)}
+	col := &collector{hashes: map[uint64]struct{}{}, known: loadKnown(r.d.ID), srcCount: map[string]int{}, srcSamples: map[string]int{}}
 	col.p = partial{Property: r.d.ID, Shard: shard, Classes: map[string]int{}, RapidClasses: map[string]int{},
 		ExcludedKnown: map[string]int{}, Rule: r.d.Rule, Assumptions: r.d.Assumptions, EnumNote: r.d.EnumNote}
 
